@@ -51,9 +51,10 @@ const bigN = 3300
 var bigForce = map[int][]string{
 	150: {"unparse"}, 777: {"big"}, 1000: {"unparse"}, 1001: {"bigbad"}, 1234: {"unparse", "big"},
 	1999: {"unparse"}, 2000: {"big"}, 2345: {"unparse", "cb-unparse"}, 2999: {"big"}, 3100: {"big", "empty", "unparse"},
+	1700: {"dupx"}, 2600: {"dup", "dupprev"},
 }
 
-var bigPlanted = []int{150, 777, 1000, 1001, 1234, 1999, 2000, 2345, 2999, 3100}
+var bigPlanted = []int{150, 777, 1000, 1001, 1234, 1999, 2000, 2345, 2999, 3100, 1700, 2600}
 
 // ---------------------------------------------------------------------
 // Case specification (what hist-<id>.json holds; generated from (seed, id)
@@ -589,7 +590,7 @@ func duelPeers(r *rand.Rand, nh, nl, h int, kind string, collude bool) ([]*peerS
 }
 
 var duelKinds = []string{fOmitX, fOmitX, fOmitX, fOmit, fOmitCb}
-var duelForce = []string{"unparse", "unparse", "big", "bigbad", "nonstd", "p2tr"}
+var duelForce = []string{"unparse", "unparse", "big", "bigbad", "nonstd", "p2tr", "dup", "dupx", "dupmix", "dupprev"}
 
 func genPeers(r *rand.Rand, lo, hi int, inClass bool) ([]*peerSpec, []int64) {
 	n := 2 + r.Intn(5)
@@ -828,7 +829,10 @@ func runR(sp *spec) (res result) {
 }
 
 func hardValue(sp *spec) *chainhash.Hash {
-	if sp.HardKind == "true" {
+	// A control checkpoint beyond the end of the chain ("one entry beyond
+	// the served lists") has no true value and is never compared: any
+	// fixed value will do.
+	if sp.HardKind == "true" && sp.HardAt >= 0 && sp.HardAt < len(fx.big.fheaders) {
 		return &fx.big.fheaders[sp.HardAt]
 	}
 	var x chainhash.Hash
@@ -901,6 +905,35 @@ func genR(id int, seed int64, r *rand.Rand) *spec {
 		sp.BlockFail, sp.StoreLieFrom = nil, 0
 		if sp.FTip >= h {
 			sp.FTip = r.Intn(h)
+		}
+		return sp
+	}
+	if r.Intn(6) == 0 {
+		// a hard-coded control checkpoint at the last entry of the served
+		// lists, one entry before it, or one entry beyond them; all peers
+		// that are not honest serve the same false value exactly there
+		sp.HardAt = 1000 * (L - 1 + r.Intn(3))
+		if sp.HardAt == 0 {
+			sp.HardAt = 1000
+		}
+		sp.HardKind = "true"
+		sp.BlockFail, sp.StoreLieFrom = nil, 0
+		if sp.FTip >= sp.HardAt {
+			sp.FTip = r.Intn(sp.HardAt)
+		}
+		nohonest := r.Intn(2) == 0
+		for _, p := range sp.Peers {
+			isHonest := false
+			for _, h := range sp.Honest {
+				isHonest = isHonest || h == p.ID
+			}
+			if !isHonest || nohonest {
+				p.Lies, p.HdrMode = nil, "ok"
+				p.CpMode, p.CpArg, p.CpSalt = "lie", sp.HardAt/1000-1, 77
+			}
+		}
+		if nohonest {
+			sp.Honest = nil
 		}
 		return sp
 	}
@@ -1453,7 +1486,7 @@ func main() {
 	}
 	// hard-coded checkpoint tables are installed before anything runs
 	for _, sp := range specs {
-		if (sp.Family == "R" || sp.Family == "HR") && sp.HardKind != "" {
+		if (sp.Family == "R" || sp.Family == "HR" || sp.Family == "L") && sp.HardKind != "" {
 			chainsync.VerifSetFilterHeaderCheckpoints(caseParams(sp.ID).Net,
 				map[uint32]*chainhash.Hash{uint32(sp.HardAt): hardValue(sp)})
 		}
